@@ -28,6 +28,11 @@ def main(argv):
     except HarnessError as e:
         print('HARNESS-ERROR: %s' % e)
         return 2
+    except Exception:      # noqa  - a bug in the machinery is never to be mistaken for a verdict (exit code 1)
+        import traceback
+        traceback.print_exc()
+        print('HARNESS-ERROR: the check itself failed (see the traceback above)')
+        return 2
 
 
 if __name__ == '__main__':
